@@ -50,6 +50,41 @@ type Volume struct {
 	Meta func() any
 	// Filter, when set, decides whether the point with this op description is captured.
 	Filter func(k int, op string) bool
+
+	holdMatch func(k int, op string) bool
+	holdHeld  chan struct{}
+	holdGo    chan struct{}
+}
+
+// HoldNextSync arranges that the next sync-type call (sync / syncdata / syncto) accepted by
+// match PARKS its calling goroutine before the sync executes: held is closed once a
+// goroutine is parked, release lets it continue. While it is parked the data written so far
+// is visible to readers but not durable, so the harness can run further operations and take
+// a Snapshot that shows exactly what a power loss at that instant would leave (a
+// deterministic "commit in flight inside its fsync" schedule). Only one hold at a time.
+func (v *Volume) HoldNextSync(match func(k int, op string) bool) (held <-chan struct{}, release func()) {
+	v.mu.Lock()
+	defer v.mu.Unlock()
+	v.holdMatch = match
+	v.holdHeld = make(chan struct{})
+	v.holdGo = make(chan struct{})
+	h, g := v.holdHeld, v.holdGo
+	var once sync.Once
+	return h, func() { once.Do(func() { close(g) }) }
+}
+
+func (v *Volume) maybeHold(op string) {
+	v.mu.Lock()
+	m := v.holdMatch
+	if m == nil || !m(v.n, op) {
+		v.mu.Unlock()
+		return
+	}
+	v.holdMatch = nil
+	h, g := v.holdHeld, v.holdGo
+	v.mu.Unlock()
+	close(h)
+	<-g
 }
 
 // NewVolume returns an empty crashable volume. Capturing is off until Start.
@@ -202,10 +237,19 @@ func (f *file) WriteAt(p []byte, off int64) (int, error) {
 	f.v.point("writeat " + f.name)
 	return f.File.WriteAt(p, off)
 }
-func (f *file) Sync() error     { f.v.point("sync " + f.name); return f.File.Sync() }
-func (f *file) SyncData() error { f.v.point("syncdata " + f.name); return f.File.SyncData() }
+func (f *file) Sync() error {
+	f.v.point("sync " + f.name)
+	f.v.maybeHold("sync " + f.name)
+	return f.File.Sync()
+}
+func (f *file) SyncData() error {
+	f.v.point("syncdata " + f.name)
+	f.v.maybeHold("syncdata " + f.name)
+	return f.File.SyncData()
+}
 func (f *file) SyncTo(n int64) (bool, error) {
 	f.v.point("syncto " + f.name)
+	f.v.maybeHold("syncto " + f.name)
 	return f.File.SyncTo(n)
 }
 
